@@ -7,7 +7,8 @@
   over sums and is carried by the bounded view `..._calculate_csr_indptr#counts`.
 * `transpose_sparse_matrix_on_disk` (slice over the block cursor): blocks [r0, r1) are
   consecutive, non-empty, end at the number of slices; variant `N - r0`; budgets >= 100;
-  every `create_dataset` call respects the h5py chunk pre-condition  -> D-2 / D-3.
+  every `create_dataset` call respects the h5py chunk pre-condition (this obligation exposed
+  D-2 / D-3, fixed in /repo by 8e80b01: it fails again if the guard `n_non_zero > 0` is removed).
 * the fill pass (argsort / unique / searchsorted) is bounded: /verif/bounded/c13.py.
 """
 from pyvc.contracts import contract
@@ -177,6 +178,6 @@ contract(
     },
     native=None,
     note="fill pass (loops 2/3: argsort / unique / searchsorted) abstracted here; bounded in "
-         "/verif/bounded/c13.py.  Obligations on the create_dataset chunk shapes fail on the "
-         "unchanged tree: D-2 / D-3.",
+         "/verif/bounded/c13.py.  The create_dataset chunk obligations are the ones that exposed "
+         "D-2 / D-3 (fixed by 8e80b01).",
 )
